@@ -3443,4 +3443,317 @@ theorem set_d_normal (prec : ℕ) (hp : 1 ≤ prec) (bits sign bexp man : ℕ)
       omega
 
 
+/-! ### add_ui -/
+
+theorem accurate_pos (prec : ℕ) (r : F) (E R : ℚ) (hwf : WF r) (hr : toQ r = R) (hE : 0 < E) (h1 : R ≤ E)
+    (h2 : (E - R) * (B : ℚ) ^ (prec - 1) < 4 * E) : Accurate prec r E := by
+  refine ⟨hwf, fun h => absurd h (ne_of_gt hE), fun _ => ?_⟩
+  have hQ : (0 : ℚ) < (B : ℚ) ^ (prec - 1) := pow_pos Bq_pos _
+  rw [hr, eps_eq, abs_of_pos hE, abs_sub_comm, abs_of_nonneg (by linarith), div_mul_eq_mul_div, lt_div_iff₀ hQ]
+  exact h2
+
+theorem accurate_neg_size (prec : ℕ) (r : F) (E : ℚ) (h : Accurate prec r E) :
+    Accurate prec {r with size := -r.size} (-E) := by
+  obtain ⟨⟨w1, w2, w3, w4, w5⟩, h2, h3⟩ := h
+  have hq : toQ {r with size := -r.size} = - toQ r := by
+    unfold toQ; dsimp only
+    rcases lt_trichotomy r.size 0 with h | h | h
+    · rw [if_neg (by omega), if_pos h]; ring
+    · have : r.d = [] := List.eq_nil_of_length_eq_zero (by rw [w2, h]; rfl)
+      simp [this]
+    · rw [if_pos (by omega), if_neg (by omega)]; ring
+  refine ⟨⟨w1, by simpa using w2, by simpa using w3, w4, fun h => w5 (by simpa using h)⟩, fun h0 => ?_, fun h0 => ?_⟩
+  · rw [hq, h2 (by linarith)]; ring
+  · rw [hq, abs_neg, show -toQ r - -E = -(toQ r - E) by ring, abs_neg]
+    exact h3 (fun h' => h0 (by rw [h']; ring))
+
+
+theorem toQ_pos_qv (u : F) (h : 0 < u.size) : toQ u = qv u.d u.exp := by
+  rw [toQ_qv]; unfold sg; rw [if_neg (by omega), one_mul]
+
+theorem toQ_pos_mk (prec : ℕ) (e : ℤ) (l : List Nat) (k : ℤ) (hk : k = (l.length : ℤ)) :
+    toQ ⟨prec, k, e, l⟩ = qv l e := by
+  subst hk; unfold toQ qv; dsimp only; rw [if_neg (by omega), one_mul]
+
+theorem WF_pos_mk (prec : ℕ) (e : ℤ) (l : List Nat) (k : ℤ) (hk : k = (l.length : ℤ)) (hl : Limbs l)
+    (ht : l.getLast? ≠ some 0) (hn : l.length ≤ prec + 1) (hne : l ≠ []) : WF ⟨prec, k, e, l⟩ := by
+  subst hk
+  refine ⟨hl, by simp, by simpa using hn, ht, fun h => ?_⟩
+  have : l.length = 0 := by have : (l.length : ℤ) = 0 := h; omega
+  exact absurd (List.eq_nil_of_length_eq_zero this) hne
+
+theorem qv_top_bound (n : ℕ) (d : List Nat) (e : ℤ) (hl : Limbs d) :
+    qv (top n d) e ≤ qv d e ∧ qv d e - qv (top n d) e < (B : ℚ) ^ (e - (n : ℤ)) := by
+  have h := qv_top n d e
+  have hlo := val_take_lt hl (d.length - n)
+  have hnn : (0 : ℚ) ≤ (val (d.take (d.length - n)) : ℚ) * (B : ℚ) ^ (e - (d.length : ℤ)) :=
+    mul_nonneg (by positivity) (le_of_lt (zpow_pos Bq_pos _))
+  refine ⟨by linarith, ?_⟩
+  rw [h, add_sub_cancel_right]
+  rcases Nat.eq_zero_or_pos (d.length - n) with h0 | h0
+  · rw [h0]; simp; exact zpow_pos Bq_pos _
+  · have := low_lt _ _ d.length e hlo
+    have e1 : e - (d.length : ℤ) + ((d.length - n : ℕ) : ℤ) = e - (n : ℤ) := by omega
+    rwa [e1] at this
+
+theorem qv_append (a b : List Nat) (e : ℤ) : qv (a ++ b) e = qv a (e - (b.length : ℤ)) + qv b e := by
+  unfold qv
+  rw [val_append, List.length_append]; push_cast
+  have : (B : ℚ) ^ a.length * (B : ℚ) ^ (e - ((a.length : ℤ) + (b.length : ℤ))) = (B : ℚ) ^ (e - (b.length : ℤ)) := by
+    rw [← zpow_natCast, ← zpow_add₀ Bq_ne]; congr 1; ring
+  rw [show e - (b.length : ℤ) - (a.length : ℤ) = e - ((a.length : ℤ) + (b.length : ℤ)) by ring, ← this]; ring
+
+theorem qv_singleton (w : ℕ) (e : ℤ) : qv [w] e = (w : ℚ) * (B : ℚ) ^ (e - 1) := by
+  unfold qv; simp [val]
+
+theorem qv_replicate_zero (k : ℕ) (e : ℤ) : qv (List.replicate k 0) e = 0 := by
+  unfold qv; rw [val_replicate_zero]; simp
+
+theorem Bz_mul_pow (a : ℤ) (n : ℕ) : (B : ℚ) ^ a * (B : ℚ) ^ n = (B : ℚ) ^ (a + (n : ℤ)) := by
+  rw [zpow_add₀ Bq_ne, zpow_natCast]
+
+theorem set_ui_exact' (prec : Nat) (v : Nat) (hv : v < B) :
+    toQ (set_ui prec v) = v ∧ WF (set_ui prec v) := by
+  unfold set_ui
+  by_cases h : v = 0
+  · rw [if_pos h, h]; exact ⟨by simp [toQ], WF_zero prec⟩
+  · rw [if_neg h]
+    refine ⟨by simp [toQ, val], ?_⟩
+    exact ⟨Limbs_cons.mpr ⟨hv, Limbs_nil⟩, rfl, by simp, by simpa using h, by simp⟩
+
+/-- add_ui.c:54-143: u > 0 and v ≠ 0 -/
+theorem add_ui_pos (prec : ℕ) (hp : 2 ≤ prec) (u : F) (w : ℕ) (hu : OpWF u) (hpos : 0 < u.size) (hw0 : w ≠ 0) (hw : w < B)
+    (rIsU : Bool) (hau : rIsU = true → u.d.length ≤ prec + 1) :
+    Accurate prec (add_ui prec rIsU u w) (toQ u + w) := by
+  have h0 : u.size ≠ 0 := by omega
+  have hne := hu.ne_nil h0
+  have hnl := List.length_pos_of_ne_nil hne
+  have hE : toQ u = qv u.d u.exp := toQ_pos_qv u hpos
+  have hX1 := qv_ge u.d u.exp hne hu.2.2.1
+  have hX2 := qv_lt u.d u.exp hu.1
+  have hwq : (1 : ℚ) ≤ (w : ℚ) := by exact_mod_cast Nat.one_le_iff_ne_zero.mpr hw0
+  have hwB : (w : ℚ) < (B : ℚ) := by exact_mod_cast hw
+  have hB2 : (2 : ℚ) ≤ (B : ℚ) := by exact_mod_cast B_ge_two
+  have hQ : (0 : ℚ) < (B : ℚ) ^ (prec - 1) := pow_pos Bq_pos _
+  have hQB : (B : ℚ) ≤ (B : ℚ) ^ (prec - 1) := by
+    calc (B : ℚ) = (B : ℚ) ^ 1 := (pow_one _).symm
+      _ ≤ (B : ℚ) ^ (prec - 1) := pow_le_pow_right₀ (by linarith) (by omega)
+  unfold add_ui
+  rw [if_neg h0, if_neg (by omega)]
+  simp only
+  rw [if_neg hw0, hE]
+  have hXpos : 0 < qv u.d u.exp := lt_of_lt_of_le (zpow_pos Bq_pos _) hX1
+  have hQz : (B : ℚ) ^ (prec - 1) = (B : ℚ) ^ ((prec : ℤ) - 1) := by
+    rw [← zpow_natCast]; congr 1; omega
+  obtain ⟨c1, c2⟩ := qv_top_bound (prec + 1) u.d u.exp hu.1
+  obtain ⟨tt1, tt2, tt3, tt4, _⟩ := top_facts (prec + 1) (by omega) u.d hu.1 hne hu.2.2.1
+  by_cases he : u.exp > 0
+  · rw [if_pos he]
+    by_cases hbig : u.exp > (prec : ℤ)
+    · -- v lies entirely below the precision of the result: sum_is_u
+      rw [if_pos hbig]
+      have hQu : (B : ℚ) ^ (prec - 1) * (B : ℚ) ≤ qv u.d u.exp := by
+        rw [hQz, ← zpow_add_one₀ Bq_ne]
+        exact le_trans (zpow_le_zpow_B (by omega)) hX1
+      cases rIsU
+      · simp only [Bool.false_eq_true, if_false]
+        refine accurate_pos prec _ _ (qv (top (prec + 1) u.d) u.exp)
+          (WF_pos_mk prec _ _ _ rfl tt1 tt3 (by rw [tt4]; omega) tt2) (toQ_pos_mk _ _ _ _ rfl) (by linarith) (by linarith) ?_
+        have h1 : (B : ℚ) ^ (u.exp - ((prec + 1 : ℕ) : ℤ)) * (B : ℚ) ^ (prec - 1) * (B : ℚ) ≤ qv u.d u.exp := by
+          rw [hQz, ← zpow_add₀ Bq_ne, ← zpow_add_one₀ Bq_ne]
+          exact le_trans (zpow_le_zpow_B (by push_cast; omega)) hX1
+        have hW : (0 : ℚ) < (B : ℚ) ^ (u.exp - ((prec + 1 : ℕ) : ℤ)) := zpow_pos Bq_pos _
+        have hWQ : (B : ℚ) ^ (u.exp - ((prec + 1 : ℕ) : ℤ)) * (B : ℚ) ^ (prec - 1) * 2 ≤ qv u.d u.exp := by
+          nlinarith [mul_nonneg (le_of_lt (mul_pos hW hQ)) (sub_nonneg.mpr hB2)]
+        have p1 := mul_lt_mul_of_pos_right c2 hQ
+        have p2 := mul_lt_mul_of_pos_right hwB hQ
+        nlinarith
+      · simp only [if_true]
+        refine accurate_pos prec _ _ (qv u.d u.exp)
+          ⟨hu.1, hu.2.1, by rw [← hu.2.1]; exact hau rfl, hu.2.2.1, hu.2.2.2⟩ (toQ_pos_qv _ hpos) (by linarith) (by linarith) ?_
+        have p2 := mul_lt_mul_of_pos_right hwB hQ
+        nlinarith
+    · rw [if_neg hbig]
+      obtain ⟨ue, hue⟩ : ∃ ue : ℕ, u.exp = (ue : ℤ) := ⟨u.exp.toNat, by omega⟩
+      have huet : u.exp.toNat = ue := by omega
+      rw [huet]
+      by_cases hgap : ue > u.d.length
+      · -- uuuuuu0000. + v: exact
+        rw [if_pos hgap]
+        have hlen : ([w] ++ List.replicate (ue - u.d.length - 1) 0 ++ u.d).length = ue := by simp; omega
+        have hval : qv ([w] ++ List.replicate (ue - u.d.length - 1) 0 ++ u.d) (ue : ℤ) = qv u.d u.exp + w := by
+          rw [qv_append, qv_append, qv_replicate_zero, qv_singleton, hue]
+          have : (ue : ℤ) - (u.d.length : ℤ) - ((List.replicate (ue - u.d.length - 1) 0).length : ℤ) - 1 = 0 := by
+            simp; omega
+          rw [this]; simp; ring
+        refine accurate_pos prec _ _ (qv u.d u.exp + w) ?_ ?_ (by linarith) (le_refl _) (by nlinarith)
+        · refine WF_pos_mk prec _ _ _ (by rw [hlen]) ?_ ?_ (by rw [hlen]; omega) (by simp)
+          · exact Limbs_append.mpr ⟨Limbs_append.mpr ⟨Limbs_cons.mpr ⟨hw, Limbs_nil⟩, Limbs_replicate_zero _⟩, hu.1⟩
+          · rw [List.getLast?_append_of_ne_nil _ hne]; exact hu.2.2.1
+        · rw [toQ_pos_mk _ _ _ _ (by rw [hlen]), hval]
+      · -- uuuuuu.uuuu + v
+        rw [if_neg hgap]
+        obtain ⟨p1, p2, p3, p4, _⟩ := top_facts prec (by omega) u.d hu.1 hne hu.2.2.1
+        obtain ⟨d1, d2⟩ := qv_top_bound prec u.d u.exp hu.1
+        have hpn : min prec u.d.length = (top prec u.d).length := p4.symm
+        generalize hup : top prec u.d = up at *
+        have hn : ue ≤ up.length := by omega
+        have hue1 : 1 ≤ ue := by omega
+        have hdl : (up.drop (up.length - ue)).length = ue := by rw [List.length_drop]; omega
+        have hhi : val (up.drop (up.length - ue)) < B ^ ue := by
+          have := val_lt _ (Limbs_drop p1 (up.length - ue)); rwa [hdl] at this
+        have hsplit := val_take_drop up (up.length - ue) (by omega)
+        have hBue : B ≤ B ^ ue := by
+          calc B = B ^ 1 := (pow_one B).symm
+            _ ≤ B ^ ue := Nat.pow_le_pow_right B_pos hue1
+        have htl : (up.take (up.length - ue)).length = up.length - ue := by rw [List.length_take]; omega
+        generalize hs : val (up.drop (up.length - ue)) + w = s at *
+        have hcy1 : s / B ^ ue ≤ 1 := by
+          have : s < 2 * B ^ ue := by omega
+          have := (Nat.div_lt_iff_lt_mul (Bpow_pos ue)).mpr this
+          omega
+        have hsmod : val (toLimbs ue s) + B ^ ue * (s / B ^ ue) = s := by rw [val_toLimbs]; exact Nat.mod_add_div _ _
+        have hTl : (up.take (up.length - ue) ++ toLimbs ue s).length = up.length := by
+          rw [List.length_append, htl, toLimbs_length]; omega
+        have hTL : Limbs (up.take (up.length - ue) ++ toLimbs ue s) := Limbs_append.mpr ⟨Limbs_take p1 _, Limbs_toLimbs _ _⟩
+        have e1 : B ^ up.length = B ^ (up.length - ue) * B ^ ue := by rw [← pow_add]; congr 1; omega
+        have hTv : val (up.take (up.length - ue) ++ toLimbs ue s) + B ^ up.length * (s / B ^ ue)
+            = val up + B ^ (up.length - ue) * w := by
+          rw [val_append, htl, hsplit, e1, mul_assoc, add_assoc, ← mul_add, hsmod, ← hs, mul_add, add_assoc]
+        generalize hT : up.take (up.length - ue) ++ toLimbs ue s = T at *
+        generalize hc : s / B ^ ue = cy at *
+        -- value and format of the result
+        have hq := qv_carry T cy u.exp hcy1
+        have hone : (B : ℚ) ^ (up.length - ue) * (B : ℚ) ^ (u.exp - (up.length : ℤ)) = 1 := by
+          rw [← zpow_natCast, ← zpow_add₀ Bq_ne, hue]
+          have : ((up.length - ue : ℕ) : ℤ) + ((ue : ℤ) - (up.length : ℤ)) = 0 := by omega
+          rw [this, zpow_zero]
+        have hval : qv (if cy ≠ 0 then T ++ [cy] else T) (u.exp + (cy : ℤ)) = qv up u.exp + w := by
+          rw [hq, hTl, hTv]; unfold qv; push_cast
+          rw [add_mul, mul_assoc ((B : ℚ) ^ (up.length - ue)), mul_comm (w : ℚ), ← mul_assoc, hone, one_mul]
+        refine accurate_pos prec _ _ (qv up u.exp + w) ?_ ?_ (by linarith) (by linarith) ?_
+        · refine WF_pos_mk prec _ _ _ rfl ?_ ?_ ?_ ?_
+          · by_cases hcz : cy ≠ 0
+            · rw [if_pos hcz]; exact Limbs_append.mpr ⟨hTL, Limbs_cons.mpr ⟨by have := B_ge_two; omega, Limbs_nil⟩⟩
+            · rw [if_neg hcz]; exact hTL
+          · by_cases hcz : cy ≠ 0
+            · rw [if_pos hcz]; simp; exact hcz
+            · rw [if_neg hcz]
+              have hc0 : cy = 0 := not_not.mp hcz
+              rw [hc0, mul_zero, add_zero] at hTv
+              apply top_ne_zero_of_val_ge T hTL (by intro h; rw [h] at hTl; simp at hTl; omega)
+              rw [hTl, hTv]
+              have := val_ge_of_top up p2 p3
+              omega
+          · by_cases hcz : cy ≠ 0
+            · rw [if_pos hcz]; simp; omega
+            · rw [if_neg hcz]; omega
+          · by_cases hcz : cy ≠ 0
+            · rw [if_pos hcz]; simp
+            · rw [if_neg hcz]; intro h; rw [h] at hTl; simp at hTl; omega
+        · rw [toQ_pos_mk _ _ _ _ rfl, hval]
+        · have hW : (B : ℚ) ^ (u.exp - (prec : ℤ)) * (B : ℚ) ^ (prec - 1) ≤ qv u.d u.exp := by
+            rw [hQz, ← zpow_add₀ Bq_ne]
+            exact le_trans (zpow_le_zpow_B (by omega)) hX1
+          have p1' := mul_lt_mul_of_pos_right d2 hQ
+          nlinarith
+  · -- u < 1 ≤ v
+    rw [if_neg he]
+    obtain ⟨ne, hne'⟩ : ∃ ne : ℕ, u.exp = -(ne : ℤ) := ⟨(-u.exp).toNat, by omega⟩
+    have hnet : (-u.exp).toNat = ne := by omega
+    rw [hnet]
+    have hL1 : Limbs [w] := Limbs_cons.mpr ⟨hw, Limbs_nil⟩
+    by_cases hfar : ne ≥ prec
+    · rw [if_pos hfar]
+      refine accurate_pos prec _ _ (w : ℚ) (WF_pos_mk prec _ _ _ rfl hL1 (by simpa using hw0) (by simp) (by simp))
+        (by rw [toQ_pos_mk prec 1 [w] 1 rfl, qv_singleton]; simp) (by linarith) (by linarith) ?_
+      have h1 : qv u.d u.exp * (B : ℚ) ^ (prec - 1) < 1 := by
+        have h2 : (B : ℚ) ^ u.exp * (B : ℚ) ^ (prec - 1) ≤ 1 := by
+          rw [hQz, ← zpow_add₀ Bq_ne]
+          have : (B : ℚ) ^ (u.exp + ((prec : ℤ) - 1)) ≤ (B : ℚ) ^ (0 : ℤ) := zpow_le_zpow_B (by omega)
+          simpa using this
+        calc qv u.d u.exp * (B : ℚ) ^ (prec - 1) < (B : ℚ) ^ u.exp * (B : ℚ) ^ (prec - 1) := mul_lt_mul_of_pos_right hX2 hQ
+          _ ≤ 1 := h2
+      nlinarith
+    · rw [if_neg hfar]
+      set m := (if u.d.length + ne + 1 > prec then prec - 1 - ne else u.d.length) with hm
+      have hupm : (if u.d.length + ne + 1 > prec then top (prec - 1 - ne) u.d else u.d) = top m u.d := by
+        rw [hm]; by_cases h : u.d.length + ne + 1 > prec
+        · rw [if_pos h, if_pos h]
+        · rw [if_neg h, if_neg h, top_of_le (le_refl _)]
+      rw [hupm]
+      obtain ⟨d1, d2⟩ := qv_top_bound m u.d u.exp hu.1
+      have hml : (top m u.d).length + ne + 1 ≤ prec := by
+        rw [top_length, hm]; by_cases h : u.d.length + ne + 1 > prec
+        · rw [if_pos h]; omega
+        · rw [if_neg h]; omega
+      have hval : qv (top m u.d ++ List.replicate ne 0 ++ [w]) 1 = qv (top m u.d) u.exp + w := by
+        rw [qv_append, qv_append, qv_replicate_zero, qv_singleton, hne']
+        simp
+      have hδ : (qv u.d u.exp - qv (top m u.d) u.exp) * (B : ℚ) ^ (prec - 1) < 1 ∨ qv u.d u.exp = qv (top m u.d) u.exp := by
+        by_cases h : u.d.length + ne + 1 > prec
+        · left
+          have hmv : m = prec - 1 - ne := by rw [hm, if_pos h]
+          have h2 : (B : ℚ) ^ (u.exp - (m : ℤ)) * (B : ℚ) ^ (prec - 1) = 1 := by
+            rw [hQz, ← zpow_add₀ Bq_ne]
+            have : u.exp - (m : ℤ) + ((prec : ℤ) - 1) = 0 := by omega
+            rw [this, zpow_zero]
+          calc _ < (B : ℚ) ^ (u.exp - (m : ℤ)) * (B : ℚ) ^ (prec - 1) := mul_lt_mul_of_pos_right d2 hQ
+            _ = 1 := h2
+        · right
+          have hmv : m = u.d.length := by rw [hm, if_neg h]
+          rw [hmv, top_of_le (le_refl _)]
+      refine accurate_pos prec _ _ (qv (top m u.d) u.exp + w) ?_ ?_ (by linarith) (by linarith) ?_
+      · refine WF_pos_mk prec _ _ _ rfl ?_ ?_ ?_ (by simp)
+        · exact Limbs_append.mpr ⟨Limbs_append.mpr ⟨Limbs_top hu.1 _, Limbs_replicate_zero _⟩, hL1⟩
+        · simp; exact hw0
+        · simp; omega
+      · rw [toQ_pos_mk _ _ _ _ rfl, hval]
+      · rcases hδ with h | h
+        · nlinarith
+        · rw [h]; nlinarith
+
+
+/-- mpf_add_ui in full -/
+theorem add_ui_accurate (prec : ℕ) (hp : 2 ≤ prec) (u : F) (w : ℕ) (hu : OpWF u) (hw : w < B) (rIsU : Bool)
+    (hau : rIsU = true → u.d.length ≤ prec + 1) :
+    Accurate prec (add_ui prec rIsU u w) (toQ u + w) := by
+  rcases lt_trichotomy u.size 0 with hneg | hz | hpos
+  · -- negative u: -( (-u) - w )
+    have hsub := sub_accurate prec hp {u with size := -u.size} (ofLimb w) (OpWF_neg_size u hu)
+    have e : add_ui prec rIsU u w =
+        {sub_ui prec false {u with size := -u.size} w with size := -(sub_ui prec false {u with size := -u.size} w).size} := by
+      unfold add_ui; rw [if_neg (by omega), if_pos hneg]
+    rw [e]
+    have hsu : Accurate prec (sub_ui prec false {u with size := -u.size} w) (-toQ u - w) := by
+      unfold sub_ui
+      by_cases h0 : w = 0
+      · rw [if_pos h0, h0]
+        have := accurate_of_set prec (by omega) _ (OpWF_neg_size u hu)
+        rw [toQ_neg_size u hu] at this; simpa using this
+      · rw [if_neg h0]
+        have := hsub (OpWF_ofLimb w h0 hw) false false (by simp) (by simp)
+        rwa [toQ_neg_size u hu, toQ_ofLimb] at this
+    have := accurate_neg_size prec _ _ hsu
+    rwa [show -(-toQ u - (w : ℚ)) = toQ u + w by ring] at this
+  · have e : add_ui prec rIsU u w = set_ui prec w := by unfold add_ui; rw [if_pos hz]
+    rw [e, toQ_of_size_zero (hu.d_nil hz), zero_add]
+    obtain ⟨h1, h2⟩ := set_ui_exact' prec w hw
+    refine ⟨h2, fun h => by rw [h1]; exact h, fun h => ?_⟩
+    rw [h1, sub_self, abs_zero]; exact mul_pos (by unfold eps; positivity) (abs_pos.mpr h)
+  · by_cases h0 : w = 0
+    · subst h0
+      have e : add_ui prec rIsU u 0 = if rIsU then {u with prec := prec} else set prec u := by
+        unfold add_ui; rw [if_neg (by omega), if_neg (by omega)]
+        simp only [if_true]
+        cases rIsU
+        · simp only [Bool.false_eq_true, if_false]; unfold set; dsimp only; rw [if_pos (by omega)]
+        · rfl
+      rw [e]; simp only [Nat.cast_zero, add_zero]
+      cases rIsU
+      · exact accurate_of_set prec (by omega) u hu
+      · exact accurate_alias prec u hu (hau rfl)
+    · exact add_ui_pos prec hp u w hu hpos h0 hw rIsU hau
+
+
 end Mpir.Mpf
